@@ -279,7 +279,7 @@ def connected_subsets(spec, rng, count, min_cells=1):
     ids = [cid for cid, _ in spec["cells"]]
     out = []
     for _ in range(count):
-        size = int(rng.integers(min_cells, len(ids) + 1))
+        size = int(rng.integers(min(min_cells, len(ids)), len(ids) + 1))
         start = ids[int(rng.integers(0, len(ids)))]
         cur = {start}
         frontier = set(adj[start])
@@ -429,8 +429,12 @@ def lattice_cells(nx, ny, kind="square", w=8.0, h=8.0):
     return np.array(corners), cells, np.array(sites)
 
 
-def lattice_tissue(nx, ny, kind="square", npts=0, w=8.0, h=8.0, rng=None, theta=0.0):
+def lattice_tissue(nx, ny, kind="square", npts=0, w=8.0, h=8.0, rng=None, theta=0.0, diamond=False):
     corners, cells, sites = lattice_cells(nx, ny, kind, w, h)
+    if diamond:
+        # exact 45-degree turn (times sqrt 2): (x, y) -> (x - y, x + y); tangents lie exactly on the diagonals
+        corners = np.array([[x - y, x + y] for x, y in corners])
+        sites = np.array([[x - y, x + y] for x, y in sites])
     spec = build_spec(corners, cells, sites, npts=npts, rng=rng)
     spec["meta"]["lattice"] = [kind, nx, ny]
     if theta:
